@@ -1018,6 +1018,69 @@ REFACTORS = [
       "                indices += sorted(\n"
       "                    set(range(max(candidates) + 1, count)) - started\n"
       "                )"),
+    r('C13-ref-transaction-positive-commit', 'C13', D + 'api.py',
+      "            if read_only:\n                rollback_tx()\n"
+      "            else:\n                commit_tx()\n",
+      "            if not read_only:\n                commit_tx()\n"
+      "            else:\n                rollback_tx()\n"),
+    r('C01-ref-transaction-positive-commit', 'C01', D + 'api.py',
+      "            if read_only:\n                rollback_tx()\n"
+      "            else:\n                commit_tx()\n",
+      "            if not read_only:\n                commit_tx()\n"
+      "            else:\n                rollback_tx()\n"),
+    r('C01-ref-base-next-commands-inverted', 'C01', W + 'base.py',
+      "        if task_ex:\n            return []\n\n"
+      "        # Add all tasks in IDLE state.\n        return [",
+      "        if task_ex is not None:\n            return []\n\n"
+      "        # Add all tasks in IDLE state.\n        return ["),
+    r('C01-ref-direct-start-condition-swapped', 'C01',
+      W + 'direct_workflow.py',
+      "        if not task_ex and not self.wf_ex.task_executions:",
+      "        if not self.wf_ex.task_executions and not task_ex:"),
+    r('C10-ref-direct-start-condition-demorgan', 'C10',
+      W + 'direct_workflow.py',
+      "        if not task_ex and not self.wf_ex.task_executions:",
+      "        if not (task_ex or self.wf_ex.task_executions):"),
+    r('C01-ref-unknown-task-demorgan', 'C01', W + 'direct_workflow.py',
+      "            if not (t_s or t_n in commands.ENGINE_CMD_CLS):",
+      "            if not t_s and t_n not in commands.ENGINE_CMD_CLS:"),
+    r('C08-ref-retry-locals-renamed', 'C08', E + 'policies.py',
+      "        retries_remain = retry_no < self.count\n",
+      "        retries_remain = self.count > retry_no\n"),
+    r('C08-ref-retry-stop-nested', 'C08', E + 'policies.py',
+      "        if not retries_remain or break_triggered or "
+      "stop_continue_flag:\n            return\n",
+      "        if not retries_remain:\n            return\n\n"
+      "        if break_triggered or stop_continue_flag:\n"
+      "            return\n"),
+    r('C07-ref-start-index-comprehension', 'C07', E + 'tasks.py',
+      "        f = lambda x: (\n            x.accepted or\n"
+      "            states.is_running(x.state) or\n"
+      "            states.is_idle(x.state)\n        )\n\n"
+      "        return len(list(filter(f, self.task_ex.executions)))",
+      "        return len([x for x in self.task_ex.executions\n"
+      "                    if x.accepted or x.state in (states.RUNNING, "
+      "states.RUNNING_DELAYED, states.IDLE)])"),
+    r('C09-ref-resolution-equal-first', 'C09', E + 'utils.py',
+      "    if parent_wf_name != parent_wf_spec_name:",
+      "    if not parent_wf_name == parent_wf_spec_name:"),
+    r('C17-ref-validate-count-order', 'C17', 'mistral/services/triggers.py',
+      "        if not pattern and count and count > 1:",
+      "        if count and count > 1 and not pattern:"),
+    r('C16-ref-auth-hook-merged-guards', 'C16', 'mistral/context.py',
+      "        if state.request.path in ALLOWED_WITHOUT_AUTH:\n"
+      "            return\n\n        if not CONF.pecan.auth_enable:\n"
+      "            return\n",
+      "        if (state.request.path in ALLOWED_WITHOUT_AUTH or\n"
+      "                not CONF.pecan.auth_enable):\n            return\n"),
+    r('C04-ref-join-locals-really-renamed', 'C04', W + 'direct_workflow.py',
+      "        errors_tuple = count(states.ERROR)\n"
+      "        runnings_tuple = count(states.RUNNING)\n"
+      "        total_count = len(induced_states)",
+      "        errors_tuple = count(states.ERROR)\n"
+      "        runnings_tuple = count(states.RUNNING)\n"
+      "        total_count = len(induced_states)\n"
+      "        n_inbound = total_count"),
     r('C04-ref-join-compare-mirrored', 'C04', W + 'direct_workflow.py',
       "            if runnings_tuple[0] >= spec_cardinality:",
       "            if spec_cardinality <= runnings_tuple[0]:"),
